@@ -207,6 +207,7 @@ Proof.
   - inversion Hs; subst. destruct H; split; simpl; auto.
   - destruct ((0 <? d) && negb (timer_blocks c (now s + d) (pa s)) && negb (timer_blocks c (now s + d) (pb s))); inversion Hs; subst.
     destruct H; split; simpl; auto.
+  - destruct fxT; inversion Hs; subst. apply pinv_setb; auto. apply binv_signal, pinv_getb; auto.
 Qed.
 
 Lemma run_inv : forall (P : pool -> Prop) fxT fxR c,
@@ -299,6 +300,8 @@ Proof.
   - inversion Hs; subst. exists []. rewrite <- Hnil. destruct x; reflexivity.
   - destruct ((0 <? d) && negb (timer_blocks c (now s + d) (pa s)) && negb (timer_blocks c (now s + d) (pb s))); inversion Hs; subst.
     exists []. rewrite <- Hnil. destruct x; reflexivity.
+  - destruct fxT; inversion Hs; subst. exists []. rewrite <- Hnil. unfold signal.
+    destruct x, a; simpl; auto; destruct (bst _); auto.
 Qed.
 
 Lemma skipped_app_mark : forall l m, map fst (filter (fun x : pkt * bool => negb (snd x)) (l ++ mark true m)) = map fst (filter (fun x => negb (snd x)) l).
